@@ -4,6 +4,7 @@ import (
 	"fmt"
 	"sort"
 	"strings"
+	"time"
 
 	"github.com/nyaruka/goflow/assets"
 	"github.com/nyaruka/goflow/envs"
@@ -214,7 +215,11 @@ func (f FieldValues) Parse(env envs.Environment, fields *FieldAssets, field *Fie
 	}
 
 	if parsedDate, xerr := types.ToXDateTimeWithTimeFill(env, asText); xerr == nil {
-		asDateTime = parsedDate
+		// a value is persisted with just its UTC offset, so only keep the offset of the environment's timezone now, rather
+		// than have the value behave differently (e.g. when adding days across a DST change) until it's next read back
+		native := parsedDate.Native()
+		_, offset := native.Zone()
+		asDateTime = types.NewXDateTime(native.In(time.FixedZone("", offset)))
 	}
 
 	var asLocation *envs.Location
